@@ -1155,7 +1155,7 @@ def compute_image_info_s10 (read_func : Nat) (write_func : Nat) (flags : Nat) : 
     flags
 
 /-- stage 11 of `compute_image_info`: new value of (code, flags) -/
-def compute_image_info_s11 (sw3 : Nat) (solid_alpha : Nat) (flags : Nat) (width : Int) (height : Int) (repeat_ : Nat) (filter : Nat) (format : Nat) (read_func : Nat) (write_func : Nat) (radial_a_nonneg : Int) (n_stops : Int) (stop_alpha : Nat → Nat) : Nat × Nat :=
+def compute_image_info_s11 (sw3 : Nat) (solid_alpha : Nat) (flags : Nat) (width : Int) (height : Int) (repeat_ : Nat) (filter : Nat) (format : Nat) (read_func : Nat) (write_func : Nat) (n_stops : Int) (stop_alpha : Nat → Nat) : Nat × Nat :=
   if sw3 = 4 then
     let code := 65536
     if Int.ofNat solid_alpha = 65535 then
@@ -1178,22 +1178,7 @@ def compute_image_info_s11 (sw3 : Nat) (solid_alpha : Nat) (flags : Nat) (width 
     else
       if sw3 = 3 then
         let code := 262144
-        if radial_a_nonneg ≠ 0 then
-          (code, flags)
-        else
-          if flags &&& 131072 = 0 then
-            (code, flags)
-          else
-            let code := 262144
-            if repeat_ ≠ 0 then
-              let flags := flags ||| 8192
-              if anyBelow n_stops (fun i_n => decide (Int.ofNat (stop_alpha i_n) ≠ 65535)) = true then
-                let flags := flags &&& 4294959103
-                (code, flags)
-              else
-                (code, flags)
-            else
-              (code, flags)
+        (code, flags)
       else
         if (sw3 = 2) ∨ (sw3 = 1) then
           let code := 262144
@@ -1228,8 +1213,8 @@ def compute_image_info_s13 (alpha_map : Nat) (filter : Nat) (component_alpha : I
   else
     flags
 
-/-- `pixman/pixman-image.c:compute_image_info` (mixed mode).  Arguments: transform : uint64_t, t00 : int32_t, t01 : int32_t, t02 : int32_t, t10 : int32_t, t11 : int32_t, t12 : int32_t, t20 : int32_t, t21 : int32_t, t22 : int32_t, filter : uint32_t, repeat_ : uint32_t, component_alpha : int32_t, itype : uint32_t, solid_alpha : uint16_t, width : int32_t, height : int32_t, format : uint32_t, read_func : uint64_t, write_func : uint64_t, radial_a_nonneg : int32_t, n_stops : int32_t, stop_alpha : uint16_t, alpha_map : uint64_t, alpha_map_format : uint32_t.  Result: (flags_out : uint32_t, code_out : uint32_t). -/
-def compute_image_info (transform : Nat) (t00 : Int) (t01 : Int) (t02 : Int) (t10 : Int) (t11 : Int) (t12 : Int) (t20 : Int) (t21 : Int) (t22 : Int) (filter : Nat) (repeat_ : Nat) (component_alpha : Int) (itype : Nat) (solid_alpha : Nat) (width : Int) (height : Int) (format : Nat) (read_func : Nat) (write_func : Nat) (radial_a_nonneg : Int) (n_stops : Int) (stop_alpha : Nat → Nat) (alpha_map : Nat) (alpha_map_format : Nat) : Nat × Nat :=
+/-- `pixman/pixman-image.c:compute_image_info` (mixed mode).  Arguments: transform : uint64_t, t00 : int32_t, t01 : int32_t, t02 : int32_t, t10 : int32_t, t11 : int32_t, t12 : int32_t, t20 : int32_t, t21 : int32_t, t22 : int32_t, filter : uint32_t, repeat_ : uint32_t, component_alpha : int32_t, itype : uint32_t, solid_alpha : uint16_t, width : int32_t, height : int32_t, format : uint32_t, read_func : uint64_t, write_func : uint64_t, n_stops : int32_t, stop_alpha : uint16_t, alpha_map : uint64_t, alpha_map_format : uint32_t.  Result: (flags_out : uint32_t, code_out : uint32_t). -/
+def compute_image_info (transform : Nat) (t00 : Int) (t01 : Int) (t02 : Int) (t10 : Int) (t11 : Int) (t12 : Int) (t20 : Int) (t21 : Int) (t22 : Int) (filter : Nat) (repeat_ : Nat) (component_alpha : Int) (itype : Nat) (solid_alpha : Nat) (width : Int) (height : Int) (format : Nat) (read_func : Nat) (write_func : Nat) (n_stops : Int) (stop_alpha : Nat → Nat) (alpha_map : Nat) (alpha_map_format : Nat) : Nat × Nat :=
   let flags := 0
   let flags := compute_image_info_s4 transform flags t20 t21 t22 t01 t10 t00 t11
   let sw1 := filter
@@ -1239,7 +1224,7 @@ def compute_image_info (transform : Nat) (t00 : Int) (t01 : Int) (t02 : Int) (t1
   let flags := compute_image_info_s7 component_alpha flags
   let flags := flags ||| 96
   let sw3 := itype
-  let j5 := compute_image_info_s11 sw3 solid_alpha flags width height repeat_ filter format read_func write_func radial_a_nonneg n_stops stop_alpha
+  let j5 := compute_image_info_s11 sw3 solid_alpha flags width height repeat_ filter format read_func write_func n_stops stop_alpha
   let code := j5.1
   let flags := j5.2
   let flags := compute_image_info_s12 alpha_map itype flags alpha_map_format
@@ -1531,5 +1516,196 @@ def glyph_insert_frozen (freeze_count : Int) : Bool :=
 /-- `pixman/pixman-glyph.c:pixman_glyph_cache_insert`, condition of test #4 (mixed mode).  Arguments: n_glyphs : int32_t, n_tombstones : int32_t. -/
 def glyph_insert_full (n_glyphs : Int) (n_tombstones : Int) : Bool :=
   decide (n_glyphs + n_tombstones ≥ 32767)
+
+/-- `pixman/pixman-glyph.c:lookup_glyph`, one iteration of loop #0 (mixed mode).  Arguments: font_key : uint64_t, glyph_key : uint64_t, idx : uint32_t, slot1 : uint64_t, slot_font_key : uint64_t, slot_glyph_key : uint64_t.  Result: (status : 0 loop ends / 1 next iteration / 2.. n-th return, idx : uint32_t, g : uint64_t, slot1_index : uint32_t). -/
+def lookup_glyph_step (font_key : Nat) (glyph_key : Nat) (idx : Nat) (slot1 : Nat) (slot_font_key : Nat) (slot_glyph_key : Nat) : Int × Nat × Nat × Nat :=
+  let slot1_index := idx &&& 32767
+  let g := slot1
+  let idx := (idx + 1) % 4294967296
+  if g = 0 then
+    (0, idx, g, slot1_index)
+  else
+    if ((g ≠ 1) ∧ (slot_font_key = font_key)) ∧ (slot_glyph_key = glyph_key) then
+      (2, idx, g, slot1_index)
+    else
+      (1, idx, g, slot1_index)
+
+/-- `pixman/pixman-glyph.c:insert_glyph`, one iteration of loop #0 (mixed mode).  Arguments: idx : uint32_t, slot1 : uint64_t.  Result: (status : 0 loop ends / 1 next iteration / 2.. n-th return, idx : uint32_t, slot1_index : uint32_t). -/
+def insert_glyph_step (idx : Nat) (slot1 : Nat) : Int × Nat × Nat :=
+  let slot_ix1 := idx &&& 32767
+  let idx := (idx + 1) % 4294967296
+  let slot1_index := slot_ix1
+  if (slot1 ≠ 0) ∧ (slot1 ≠ 1) then
+    (1, idx, slot1_index)
+  else
+    (0, idx, slot1_index)
+
+/-- `pixman/pixman-glyph.c:remove_glyph`, one iteration of loop #0 (mixed mode).  Arguments: glyph : uint64_t, idx : uint32_t, slot1 : uint64_t.  Result: (status : 0 loop ends / 1 next iteration / 2.. n-th return, idx : uint32_t, slot1_index : uint32_t). -/
+def remove_glyph_find_step (glyph : Nat) (idx : Nat) (slot1 : Nat) : Int × Nat × Nat :=
+  let slot1_index := idx &&& 32767
+  if slot1 = glyph then
+    (0, idx, slot1_index)
+  else
+    let idx := (idx + 1) % 4294967296
+    (1, idx, slot1_index)
+
+/-- `pixman/pixman-glyph.c:remove_glyph`, one iteration of loop #1 (mixed mode).  Arguments: idx : uint32_t, slot1 : uint64_t, n_tombstones : int32_t.  Result: (status : 0 loop ends / 1 next iteration / 2.. n-th return, idx : uint32_t, slot1_index : uint32_t, slot_wr_index : uint32_t, slot_wr_value : uint64_t, slot_wr_done : uint32_t, n_tombstones : int32_t). -/
+def remove_glyph_clear_step (idx : Nat) (slot1 : Nat) (n_tombstones : Int) : Int × Nat × Nat × Nat × Nat × Nat × Int :=
+  let slot_wr_done := 0
+  let slot_wr_index := 0
+  let slot_wr_value := 0
+  let slot1_index := idx &&& 32767
+  if ¬(slot1 = 1) then
+    (0, idx, slot1_index, slot_wr_index, slot_wr_value, slot_wr_done, n_tombstones)
+  else
+    let slot_wr_index := idx &&& 32767
+    let slot_wr_value := 0
+    let slot_wr_done := 1
+    let n_tombstones := s32 (n_tombstones - 1)
+    let idx := (idx + 4294967296 - 1 % 4294967296) % 4294967296
+    (1, idx, slot1_index, slot_wr_index, slot_wr_value, slot_wr_done, n_tombstones)
+
+/-- `pixman/pixman-glyph.c:remove_glyph`, statements (3, 6) (mixed mode).  Arguments: idx : uint32_t, n_glyphs : int32_t, n_tombstones : int32_t.  Result: (status : 0 loop ends / 1 next iteration / 2.. n-th return, slot_wr_index : uint32_t, slot_wr_value : uint64_t, slot_wr_done : uint32_t, n_glyphs : int32_t, n_tombstones : int32_t). -/
+def remove_glyph_mark (idx : Nat) (n_glyphs : Int) (n_tombstones : Int) : Int × Nat × Nat × Nat × Int × Int :=
+  let slot_wr_done := 0
+  let slot_wr_index := 0
+  let slot_wr_value := 0
+  let slot_wr_index := idx &&& 32767
+  let slot_wr_value := 1
+  let slot_wr_done := 1
+  let n_tombstones := s32 (n_tombstones + 1)
+  let n_glyphs := s32 (n_glyphs - 1)
+  (0, slot_wr_index, slot_wr_value, slot_wr_done, n_glyphs, n_tombstones)
+
+/-- `pixman/pixman-glyph.c:remove_glyph`, condition of if #0 (status 1 = true) (mixed mode).  Arguments: idx : uint32_t, slot1 : uint64_t.  Result: (status : 0 loop ends / 1 next iteration / 2.. n-th return, slot1_index : uint32_t). -/
+def remove_glyph_next_empty (idx : Nat) (slot1 : Nat) : Int × Nat :=
+  let slot1_index := ((idx + 1) % 4294967296) &&& 32767
+  if slot1 = 0 then
+    (1, slot1_index)
+  else
+    (0, slot1_index)
+
+/-- `pixman/pixman-glyph.c:insert_glyph`, statements (4, 7) (mixed mode).  Arguments: glyph : uint64_t, slot1 : uint64_t, loc_index : uint32_t, n_glyphs : int32_t, n_tombstones : int32_t.  Result: (status : 0 loop ends / 1 next iteration / 2.. n-th return, slot1_index : uint32_t, slot_wr_index : uint32_t, slot_wr_value : uint64_t, slot_wr_done : uint32_t, n_glyphs : int32_t, n_tombstones : int32_t). -/
+def insert_glyph_store (glyph : Nat) (slot1 : Nat) (loc_index : Nat) (n_glyphs : Int) (n_tombstones : Int) : Int × Nat × Nat × Nat × Nat × Int × Int :=
+  let slot_wr_done := 0
+  let slot_wr_index := 0
+  let slot_wr_value := 0
+  let slot1_index := loc_index
+  let n_tombstones := if slot1 = 1 then
+      s32 (n_tombstones - 1)
+    else
+      n_tombstones
+  let n_glyphs := s32 (n_glyphs + 1)
+  let slot_wr_index := loc_index
+  let slot_wr_value := glyph
+  let slot_wr_done := 1
+  (0, slot1_index, slot_wr_index, slot_wr_value, slot_wr_done, n_glyphs, n_tombstones)
+
+/-- `pixman/pixman-region32.c:pixman_region32_translate`, statements (7, 11) (mixed mode).  Arguments: x : int32_t, y : int32_t, ext_x1 : int32_t, ext_y1 : int32_t, ext_x2 : int32_t, ext_y2 : int32_t.  Result: (status : 0 loop ends / 1 next iteration / 2.. n-th return, x1 : int64_t, x2 : int64_t, y1 : int64_t, y2 : int64_t). -/
+def region32_translate_sums (x : Int) (y : Int) (ext_x1 : Int) (ext_y1 : Int) (ext_x2 : Int) (ext_y2 : Int) : Int × Int × Int × Int × Int :=
+  let x1 := ext_x1 + x
+  let y1 := ext_y1 + y
+  let x2 := ext_x2 + x
+  let y2 := ext_y2 + y
+  (0, x1, x2, y1, y2)
+
+/-- `pixman/pixman-region32.c:pixman_region32_translate`, condition of if #0 (status 1 = true) (mixed mode).  Arguments: x1 : int64_t, x2 : int64_t, y1 : int64_t, y2 : int64_t.  Result: (status : 0 loop ends / 1 next iteration / 2.. n-th return). -/
+def region32_translate_inrange (x1 : Int) (x2 : Int) (y1 : Int) (y2 : Int) : Int :=
+  if sbor (s64 (sbor (s64 (sbor (s64 (x1 - (-2147483648))) (s64 (y1 - (-2147483648))))) (s64 (2147483647 - x2)))) (s64 (2147483647 - y2)) ≥ 0 then
+    (1)
+  else
+    (0)
+
+/-- `pixman/pixman-region32.c:pixman_region32_translate`, condition of if #2 (status 1 = true) (mixed mode).  Arguments: x1 : int64_t, x2 : int64_t, y1 : int64_t, y2 : int64_t.  Result: (status : 0 loop ends / 1 next iteration / 2.. n-th return). -/
+def region32_translate_outside (x1 : Int) (x2 : Int) (y1 : Int) (y2 : Int) : Int :=
+  if (((x2 ≤ (-2147483648)) ∨ (y2 ≤ (-2147483648))) ∨ (x1 ≥ 2147483647)) ∨ (y1 ≥ 2147483647) then
+    (1)
+  else
+    (0)
+
+/-- `pixman/pixman-region32.c:pixman_region32_translate`, statements (13, 17) (mixed mode).  Arguments: x1 : int64_t, x2 : int64_t, y1 : int64_t, y2 : int64_t.  Result: (status : 0 loop ends / 1 next iteration / 2.. n-th return, ext_x1 : int32_t, ext_y1 : int32_t, ext_x2 : int32_t, ext_y2 : int32_t). -/
+def region32_translate_clamp_extents (x1 : Int) (x2 : Int) (y1 : Int) (y2 : Int) : Int × Int × Int × Int × Int :=
+  let ext_x1 := s32 (if x1 < (-2147483648) then (-2147483648) else x1)
+  let ext_y1 := s32 (if y1 < (-2147483648) then (-2147483648) else y1)
+  let ext_x2 := s32 (if x2 > 2147483647 then 2147483647 else x2)
+  let ext_y2 := s32 (if y2 > 2147483647 then 2147483647 else y2)
+  (0, ext_x1, ext_y1, ext_x2, ext_y2)
+
+/-- `pixman/pixman-region32.c:pixman_set_extents`, one iteration of loop #0 (mixed mode).  Arguments: box : uint64_t, box_end : uint64_t, box_x1 : int32_t, box_x2 : int32_t, ext_x1 : int32_t, ext_x2 : int32_t.  Result: (status : 0 loop ends / 1 next iteration / 2.. n-th return, box : uint64_t, ext_x1 : int32_t, ext_x2 : int32_t). -/
+def region32_set_extents_step (box : Nat) (box_end : Nat) (box_x1 : Int) (box_x2 : Int) (ext_x1 : Int) (ext_x2 : Int) : Int × Nat × Int × Int :=
+  if ¬(box ≤ box_end) then
+    (0, box, ext_x1, ext_x2)
+  else
+    let ext_x1 := if box_x1 < ext_x1 then
+        box_x1
+      else
+        ext_x1
+    let ext_x2 := if box_x2 > ext_x2 then
+        box_x2
+      else
+        ext_x2
+    let box := (box + 1) % 18446744073709551616
+    (1, box, ext_x1, ext_x2)
+
+/-- `pixman/pixman-region32.c:pixman_coalesce`, one iteration of loop #0 (mixed mode).  Arguments: prev_box : uint64_t, cur_box : uint64_t, numRects : int32_t, prev_x1 : int32_t, prev_x2 : int32_t, cur_x1 : int32_t, cur_x2 : int32_t.  Result: (status : 0 loop ends / 1 next iteration / 2.. n-th return, prev_box : uint64_t, cur_box : uint64_t, numRects : int32_t). -/
+def region32_coalesce_compare_step (prev_box : Nat) (cur_box : Nat) (numRects : Int) (prev_x1 : Int) (prev_x2 : Int) (cur_x1 : Int) (cur_x2 : Int) : Int × Nat × Nat × Int :=
+  if (prev_x1 ≠ cur_x1) ∨ (prev_x2 ≠ cur_x2) then
+    (2, prev_box, cur_box, numRects)
+  else
+    let prev_box := (prev_box + 1) % 18446744073709551616
+    let cur_box := (cur_box + 1) % 18446744073709551616
+    let numRects := s32 (numRects - 1)
+    if numRects ≠ 0 then
+      (1, prev_box, cur_box, numRects)
+    else
+      (0, prev_box, cur_box, numRects)
+
+/-- `pixman/pixman-region32.c:pixman_coalesce`, one iteration of loop #1 (mixed mode).  Arguments: prev_box : uint64_t, numRects : int32_t, y2 : int32_t.  Result: (status : 0 loop ends / 1 next iteration / 2.. n-th return, prev_box : uint64_t, numRects : int32_t, prev_y2 : int32_t). -/
+def region32_coalesce_merge_step (prev_box : Nat) (numRects : Int) (y2 : Int) : Int × Nat × Int × Int :=
+  let prev_box := (prev_box + 18446744073709551616 - 1 % 18446744073709551616) % 18446744073709551616
+  let prev_y2 := y2
+  let numRects := s32 (numRects - 1)
+  if numRects ≠ 0 then
+    (1, prev_box, numRects, prev_y2)
+  else
+    (0, prev_box, numRects, prev_y2)
+
+/-- `pixman/pixman-region32.c:pixman_region32_translate`, one iteration of loop #0 (mixed mode).  Arguments: x : int32_t, y : int32_t, nbox : int32_t, pbox : uint64_t, box_x1 : int32_t, box_y1 : int32_t, box_x2 : int32_t, box_y2 : int32_t.  Result: (status : 0 loop ends / 1 next iteration / 2.. n-th return, nbox : int32_t, pbox : uint64_t, box_x1 : int32_t, box_y1 : int32_t, box_x2 : int32_t, box_y2 : int32_t). -/
+def region32_translate_move_step (x : Int) (y : Int) (nbox : Int) (pbox : Nat) (box_x1 : Int) (box_y1 : Int) (box_x2 : Int) (box_y2 : Int) : Int × Int × Nat × Int × Int × Int × Int :=
+  let cnd1 := if nbox ≠ 0 then 1 else 0
+  let nbox := s32 (nbox - 1)
+  if cnd1 = 0 then
+    (0, nbox, pbox, box_x1, box_y1, box_x2, box_y2)
+  else
+    let box_x1 := s32 (box_x1 + x)
+    let box_y1 := s32 (box_y1 + y)
+    let box_x2 := s32 (box_x2 + x)
+    let box_y2 := s32 (box_y2 + y)
+    let pbox := (pbox + 1) % 18446744073709551616
+    (1, nbox, pbox, box_x1, box_y1, box_x2, box_y2)
+
+/-- `pixman/pixman-region32.c:pixman_region32_translate`, one iteration of loop #1 (mixed mode).  Arguments: x : int32_t, y : int32_t, x1 : int64_t, x2 : int64_t, y1 : int64_t, y2 : int64_t, nbox : int32_t, pbox : uint64_t, pbox_out : uint64_t, box_x1 : int32_t, box_y1 : int32_t, box_x2 : int32_t, box_y2 : int32_t, out_x1 : int32_t, out_y1 : int32_t, out_x2 : int32_t, out_y2 : int32_t, num_rects : int64_t.  Result: (status : 0 loop ends / 1 next iteration / 2.. n-th return, x1 : int64_t, x2 : int64_t, y1 : int64_t, y2 : int64_t, nbox : int32_t, pbox : uint64_t, pbox_out : uint64_t, out_x1 : int32_t, out_y1 : int32_t, out_x2 : int32_t, out_y2 : int32_t, num_rects : int64_t). -/
+def region32_translate_clamp_step (x : Int) (y : Int) (x1 : Int) (x2 : Int) (y1 : Int) (y2 : Int) (nbox : Int) (pbox : Nat) (pbox_out : Nat) (box_x1 : Int) (box_y1 : Int) (box_x2 : Int) (box_y2 : Int) (out_x1 : Int) (out_y1 : Int) (out_x2 : Int) (out_y2 : Int) (num_rects : Int) : Int × Int × Int × Int × Int × Int × Nat × Nat × Int × Int × Int × Int × Int :=
+  let cnd1 := if nbox ≠ 0 then 1 else 0
+  let nbox := s32 (nbox - 1)
+  if cnd1 = 0 then
+    (0, x1, x2, y1, y2, nbox, pbox, pbox_out, out_x1, out_y1, out_x2, out_y2, num_rects)
+  else
+    let x1 := box_x1 + x
+    let y1 := box_y1 + y
+    let x2 := box_x2 + x
+    let y2 := box_y2 + y
+    if (((x2 ≤ (-2147483648)) ∨ (y2 ≤ (-2147483648))) ∨ (x1 ≥ 2147483647)) ∨ (y1 ≥ 2147483647) then
+      let num_rects := s64 (num_rects - 1)
+      let pbox := (pbox + 1) % 18446744073709551616
+      (1, x1, x2, y1, y2, nbox, pbox, pbox_out, out_x1, out_y1, out_x2, out_y2, num_rects)
+    else
+      let out_x1 := s32 (if x1 < (-2147483648) then (-2147483648) else x1)
+      let out_y1 := s32 (if y1 < (-2147483648) then (-2147483648) else y1)
+      let out_x2 := s32 (if x2 > 2147483647 then 2147483647 else x2)
+      let out_y2 := s32 (if y2 > 2147483647 then 2147483647 else y2)
+      let pbox_out := (pbox_out + 1) % 18446744073709551616
+      let pbox := (pbox + 1) % 18446744073709551616
+      (1, x1, x2, y1, y2, nbox, pbox, pbox_out, out_x1, out_y1, out_x2, out_y2, num_rects)
 
 end Pixman.Gen.CFuncs
